@@ -430,8 +430,14 @@ func (p *postHandshake) processPostHandshakeMessages(ctx context.Context, conn C
 
 			return err
 		}
+		recvSequence := p.state.HandshakeRecvSequence
 		if err := p.handlePostHandshakeMessage(ctx, conn, message, item.Epoch); err != nil {
 			return err
+		}
+		if p.state.HandshakeRecvSequence == recvSequence {
+			// The message was rejected with a fatal alert and not consumed;
+			// pulling it again would loop on it for ever.
+			return dtlserrors.ErrUnexpectedPostHandshakeMessage
 		}
 	}
 
